@@ -9,41 +9,62 @@ from .c08 import CMP_T, NUM_T, calls, compares, defaults, negated_compares, numb
 
 
 def emit_all(emit):
-    from classy_blocks.construct.curves import analytic, curve, discrete, interpolated
-    from classy_blocks.items.edges import curve as curve_edge
+    # no plain value tables: the C16 model (`Model/C16.lean`, which imports `Model/C08.lean`) names no generated table of this module;
+    # every `ast` group below is independent and guarded, only `CBV.Props.C16` names these tables
+    def params():
+        from classy_blocks.construct.curves import curve
 
-    emit("c16CheckParamCompares", CMP_T, compares(curve.CurveBase._check_param), "CurveBase._check_param: the bounds test")
-    emit("c16CheckParamNegated", "List Bool", negated_compares(curve.CurveBase._check_param), "… under a `not` (then ValueError)")
-    emit("c16GetParamsCompares", CMP_T, compares(curve.CurveBase._get_params), "CurveBase._get_params: `is None` tests (only None is replaced)")
-    emit("c16GetParamsDefaults", "List (String × String)", defaults(curve.CurveBase._get_params), "default arguments of _get_params")
-    emit(
-        "c16DiscretizeDefaults",
-        "List (String × List (String × String))",
-        [
-            ("CurveBase", defaults(curve.CurveBase.discretize)),
-            ("FunctionCurveBase", defaults(curve.FunctionCurveBase.discretize)),
-            ("DiscreteCurve", defaults(discrete.DiscreteCurve.discretize)),
-        ],
-        "default arguments of the discretize methods (sample counts)",
-    )
-    emit(
-        "c16AnalyticLengthCall",
-        "List (List String)",
-        calls(analytic.AnalyticCurve.get_length, "discretize"),
-        "AnalyticCurve.get_length: arguments of its discretize call (count=100)",
-    )
-    emit("c16LinspaceCall", "List (List String)", calls(curve.FunctionCurveBase.discretize, "linspace"), "np.linspace call of FunctionCurveBase.discretize")
-    emit("c16InterpLengthCompares", CMP_T, compares(interpolated.InterpolatedCurveBase.get_length), "break-point filter of InterpolatedCurveBase.get_length")
-    emit(
-        "c16ClosestLinearCompares",
-        CMP_T,
-        compares(interpolated.LinearInterpolatedCurve.get_closest_param),
-        "LinearInterpolatedCurve.get_closest_param: the degenerate-segment test",
-    )
-    emit("c16ClosestLinearNumbers", NUM_T, numbers(interpolated.LinearInterpolatedCurve.get_closest_param), "numeric literals (slices, where, clip)")
-    emit("c16ClosestLinearClip", "List (List String)", calls(interpolated.LinearInterpolatedCurve.get_closest_param, "clip"), "np.clip call")
-    emit("c16DiscreteCompares", CMP_T, compares(discrete.DiscreteCurve.discretize), "DiscreteCurve.discretize: the flip test")
-    emit("c16DiscreteNumbers", NUM_T, numbers(discrete.DiscreteCurve.discretize), "numeric literals of DiscreteCurve.discretize (default count 0, `+ 1` of the slice, axis)")
-    emit("c16DiscreteLengthCompares", CMP_T, compares(discrete.DiscreteCurve.get_length), "DiscreteCurve.get_length: single-point test")
-    emit("c16DiscreteLengthNumbers", NUM_T, numbers(discrete.DiscreteCurve.get_length), "numeric literals of DiscreteCurve.get_length")
-    emit("c16PointArrayNumbers", NUM_T, numbers(curve_edge.OnCurveEdge.point_array), "OnCurveEdge.point_array: the slice [1:-1]")
+        emit("c16CheckParamCompares", CMP_T, compares(curve.CurveBase._check_param), "CurveBase._check_param: the bounds test")
+        emit("c16CheckParamNegated", "List Bool", negated_compares(curve.CurveBase._check_param), "… under a `not` (then ValueError)")
+        emit("c16GetParamsCompares", CMP_T, compares(curve.CurveBase._get_params), "CurveBase._get_params: `is None` tests (only None is replaced)")
+        emit("c16GetParamsDefaults", "List (String × String)", defaults(curve.CurveBase._get_params), "default arguments of _get_params")
+
+    def samples():
+        from classy_blocks.construct.curves import analytic, curve, discrete
+
+        emit(
+            "c16DiscretizeDefaults",
+            "List (String × List (String × String))",
+            [
+                ("CurveBase", defaults(curve.CurveBase.discretize)),
+                ("FunctionCurveBase", defaults(curve.FunctionCurveBase.discretize)),
+                ("DiscreteCurve", defaults(discrete.DiscreteCurve.discretize)),
+            ],
+            "default arguments of the discretize methods (sample counts)",
+        )
+        emit(
+            "c16AnalyticLengthCall",
+            "List (List String)",
+            calls(analytic.AnalyticCurve.get_length, "discretize"),
+            "AnalyticCurve.get_length: arguments of its discretize call (count=100)",
+        )
+        emit("c16LinspaceCall", "List (List String)", calls(curve.FunctionCurveBase.discretize, "linspace"), "np.linspace call of FunctionCurveBase.discretize")
+
+    def interp_length():
+        from classy_blocks.construct.curves import interpolated
+
+        emit("c16InterpLengthCompares", CMP_T, compares(interpolated.InterpolatedCurveBase.get_length), "break-point filter of InterpolatedCurveBase.get_length")
+
+    def closest_linear():
+        from classy_blocks.construct.curves import interpolated
+
+        fn = interpolated.LinearInterpolatedCurve.get_closest_param
+        emit("c16ClosestLinearCompares", CMP_T, compares(fn), "LinearInterpolatedCurve.get_closest_param: the degenerate-segment test")
+        emit("c16ClosestLinearNumbers", NUM_T, numbers(fn), "numeric literals (slices, where, clip)")
+        emit("c16ClosestLinearClip", "List (List String)", calls(fn, "clip"), "np.clip call")
+
+    def discrete_():
+        from classy_blocks.construct.curves import discrete
+
+        emit("c16DiscreteCompares", CMP_T, compares(discrete.DiscreteCurve.discretize), "DiscreteCurve.discretize: the flip test")
+        emit("c16DiscreteNumbers", NUM_T, numbers(discrete.DiscreteCurve.discretize), "numeric literals of DiscreteCurve.discretize (default count 0, `+ 1` of the slice, axis)")
+        emit("c16DiscreteLengthCompares", CMP_T, compares(discrete.DiscreteCurve.get_length), "DiscreteCurve.get_length: single-point test")
+        emit("c16DiscreteLengthNumbers", NUM_T, numbers(discrete.DiscreteCurve.get_length), "numeric literals of DiscreteCurve.get_length")
+
+    def edge():
+        from classy_blocks.items.edges import curve as curve_edge
+
+        emit("c16PointArrayNumbers", NUM_T, numbers(curve_edge.OnCurveEdge.point_array), "OnCurveEdge.point_array: the slice [1:-1]")
+
+    for group in (params, samples, interp_length, closest_linear, discrete_, edge):
+        emit.guard(group)
